@@ -23,6 +23,8 @@ VERIF = os.path.dirname(os.path.dirname(os.path.abspath(__file__)))
 REPO = os.environ.get("VERIF_REPO", "/repo")
 os.environ.setdefault("GRAPHIQ_VERIF", "1")
 os.environ.setdefault("MPLBACKEND", "Agg")
+for _v in ("OMP_NUM_THREADS", "OPENBLAS_NUM_THREADS", "MKL_NUM_THREADS"):
+    os.environ.setdefault(_v, "1")        # tiny matrices: BLAS thread pools only burn system time
 if REPO not in sys.path:
     sys.path.insert(0, REPO)
 
